@@ -183,7 +183,7 @@ namespace tt {
     o << "Lemma " << nm << "_ok :";
     if (!op.in.empty()) o << " forall " << ls << ",";
     o << hyp << "\n  " << nm << args << " = " << spec << ".\n";
-    o << "Proof.\n  intros" << (op.hyp.empty() ? "" : " Hyp") << ". apply list_eq_nth; [reflexivity|]. intros k Hk.\n";
+    o << "Proof.\n  intros" << args << (op.hyp.empty() ? "" : " Hyp") << ". apply list_eq_nth; [reflexivity|]. intros k Hk.\n";
     for (size_t i = 0; i < outs.size(); ++i)
       o << "  destruct k as [|k]; [exact (" << nm << "_c" << i << "_ok" << args << (op.hyp.empty() ? "" : " Hyp") << ")|].\n";
     o << "  exfalso; simpl in Hk; lia.\nQed.\n\n";
